@@ -93,6 +93,7 @@ type ACLSpec struct {
 	Allow    [][]bool `json:"allow"`               // [user][target]
 	FailUser []bool   `json:"fail_user"`           // NewRPCACL fails for this user
 	FailKind []string `json:"fail_kind,omitempty"` // ... with this kind of error value (see aclError)
+	Dynamic  bool     `json:"dynamic,omitempty"`   // aclflip steps take effect (grants change while streams are open)
 }
 
 // Scenario is the whole case.
@@ -138,7 +139,7 @@ var profiles = map[string]profile{
 		wkinds:  []string{"noti", "noti", "noti", "noti", "reset", "remove", "add"},
 		parks:   []string{"", "", "sub.walk.begin", "sub.walk.end", "coalesce.next.empty", "coalesce.next.empty"}},
 	"C07": {minTargets: 2, maxTargets: 4, modes: []string{"stream", "stream", "once", "poll"}, acl: true, gatedPct: 15, maxSteps: 30, maxSubs: 4, preload: 4, starPct: 60, pickPct: 30, timeout: true, bulkPct: 3, bulkNs: []int{5, 40, 70},
-		weights: map[string]int{"w": 14, "start": 6, "release": 3, "relw": 2, "poll": 2, "grant": 2, "check": 2, "drain": 2, "sleep": 2},
+		weights: map[string]int{"w": 14, "start": 6, "release": 3, "relw": 2, "poll": 2, "grant": 2, "check": 2, "drain": 2, "sleep": 2, "aclflip": 2},
 		wkinds:  []string{"noti", "noti", "noti", "noti", "noti", "noti", "reset", "remove", "add"},
 		parks:   []string{"", "", "sub.registered", "sub.walk.begin"}},
 	"C08": {minTargets: 1, maxTargets: 2, modes: []string{"stream"}, gatedPct: 70, maxSteps: 36, maxSubs: 3, preload: 3, timeout: true, starPct: 30, pickPct: 60, aclPct: 25, bulkPct: 5, bulkNs: []int{5, 33, 40, 70, 130},
@@ -151,7 +152,7 @@ var profiles = map[string]profile{
 		parks:   []string{"", "", "sub.registered"}},
 }
 
-var stepOrder = []string{"w", "start", "release", "relw", "grant", "poll", "eof", "cancel", "sleep", "check", "drain", "rmadd", "wrace"}
+var stepOrder = []string{"w", "start", "release", "relw", "grant", "poll", "eof", "cancel", "sleep", "check", "drain", "rmadd", "wrace", "aclflip"}
 
 // richNames switches the element alphabet of the scenario being generated to
 // names of which one is a string prefix of another and one contains the "/"
@@ -357,6 +358,9 @@ func genStep(pr profile, targets, nsubs int) func(t *rapid.T) Step {
 			if len(s.W.Updates) == 0 {
 				s.W.Updates = []Upd{{Path: genElems(t, 1, 2, false), Val: genVal(t)}}
 			}
+		case "aclflip":
+			s.Sub = rapid.IntRange(0, 2).Draw(t, "flip-user")
+			s.N = rapid.IntRange(0, targets-1).Draw(t, "flip-target")
 		case "wrace":
 			s.Sub = rapid.IntRange(0, nsubs-1).Draw(t, "sub")
 			s.W = wop.Draw(t, "w")
@@ -491,6 +495,7 @@ func genScenario(prop string) func(t *rapid.T) *Scenario {
 				acl.FailUser = append(acl.FailUser, rapid.IntRange(0, 7).Draw(t, "failuser") == 0)
 				acl.FailKind = append(acl.FailKind, rapid.SampledFrom([]string{"", "", "status-unavailable", "status-denied", "wrapped-status", "status-ok", "canceled", "empty-text"}).Draw(t, "failkind"))
 			}
+			acl.Dynamic = rapid.IntRange(0, 3).Draw(t, "dynamic-acl") == 0
 			sc.ACL = acl
 		}
 		sc.Subs = rapid.SliceOfN(rapid.Custom(genSub(pr, sc.Targets, users)), 1, pr.maxSubs).Draw(t, "subs")
